@@ -572,3 +572,11 @@ func (r *Reassembler) Add(f *Frame) {
 		r.Done = true
 	}
 }
+
+// FrameID returns the id field of an encoded frame (0 if too short).
+func FrameID(raw []byte) uint32 {
+	if len(raw) < 8 {
+		return 0
+	}
+	return binary.BigEndian.Uint32(raw[4:])
+}
